@@ -3,9 +3,8 @@
    under vm_compute, and every yielded object and the class of the exception that ended a frame must be equal.  This
    validates the translator and PyPrims.v themselves (the trusted part of the source ties) against CPython + protobuf.
 
-   tx_reader: options_from_frame on the first frame, the adapter class the generic parser picks for the physical type (the
-   three lines of parse_triples_stream / parse_quads_stream that do so are not translated: restated here), Decoder(adapter),
-   then iter_rows per frame until one raises.  Everything it calls is generated code. *)
+   tx_reader: options_from_frame on the first frame, then parse_jelly_flat (the adapter class for the physical type,
+   Decoder(adapter), iter_rows per frame, the yields flattened).  Everything it calls is generated code. *)
 From PJ.Model Require Import Base.
 From PJ.Tie Require Import PyPrims StrN.
 From PJ.Gen Require Import LookupDecGen OptionsGen DecodeGen GenericSinkGen GenericParseGen.
@@ -16,35 +15,18 @@ Notation GDec := (@Decoder SN gobj (Adapter SN)).
 Notation gd_iter := (Decoder_iter_rows SN Adapter_options (Adapter_iri SN) (Adapter_default_graph SN) (Adapter_bnode SN) (Adapter_literal SN)
                       (Adapter_triple SN) (Adapter_quad SN) (Adapter_graph_start SN) (Adapter_graph_end SN) (Adapter_namespace_declaration SN) (Adapter_quoted_triple SN)).
 
-Fixpoint tx_frames (fms : list (pbval str)) (d : GDec) : list (list (option gobj) * option exn) :=
+(* options_from_frame on the first frame (as get_options_and_frames does after reading it), then the flat parser
+   parse_jelly_flat(frames=.., options=..): all generated code.  The result: everything yielded, and the class of the exception
+   that ended the run *)
+Definition tx_reader (fms : list (pbval str)) : list (option gobj) * option exn :=
   match fms with
-  | [] => []
-  | fm :: rest =>
-    let '(r, d', ys) := gd_iter fm d in
-    match r with
-    | Val _ => (ys, None) :: tx_frames rest d'
-    | Exn e => [(ys, Some e)]
-    end
-  end.
-
-Definition tx_reader (fms : list (pbval str)) : list (list (option gobj) * option exn) :=
-  match fms with
-  | [] => []
+  | [] => ([], None)
   | f0 :: _ =>
     match options_from_frame SN f0 true with
-    | Exn e => [([], Some e)]
+    | Exn e => ([], Some e)
     | Val po =>
-      let phys := StreamTypes_physical_type (ParserOptions_stream_types po) in
-      match (if phys =? 1 then GenericTriplesAdapter___init__ SN po
-             else if phys =? 2 then GenericQuadsAdapter___init__ SN po
-             else GenericGraphsAdapter___init__ SN po) with
-      | Exn e => [([], Some e)]
-      | Val a =>
-        match Decoder___init__ SN Adapter_options a with
-        | Exn e => [([], Some e)]
-        | Val d => tx_frames fms d
-        end
-      end
+      let '(r, _, ys) := parse_jelly_flat SN fms po false in
+      (ys, match r with Exn e => Some e | Val _ => None end)
     end
   end.
 
